@@ -6,6 +6,7 @@ import (
 	"go/constant"
 	"go/token"
 	"go/types"
+	"sort"
 	"strings"
 
 	"golang.org/x/tools/go/ssa"
@@ -362,6 +363,7 @@ func rulesC09(c *Ctx) {
 	shortcutsC09(c, tt, "C09.shortcuts")
 	promoteC09(c)
 	dispatchC09(c)
+	bindKindsC09(c)
 	copyLiteralRule(c, "C09.copylit", func(name string) bool { return strings.HasPrefix(name, "reduce") || name == "Reduce" })
 	zoneC09(c)
 }
@@ -831,4 +833,69 @@ func dispatchC09(c *Ctx) {
 	}
 	c.OK("C09.intdiv", "int64 quotients in the folder", 0, fmt.Sprintf("%d", nDiv))
 	c.Floor("C09.dispatch", nCalls, 8)
+}
+
+// bindKindsC09: every kind of value the evaluator computes with can also be
+// substituted by the folder.
+func bindKindsC09(c *Ctx) {
+	p := c.P
+	c.Rule("C09.bindkinds", "asLiteral (which turns a variable's bound value into a literal when Reduce substitutes it) has a case for every value kind evalBinaryExpr dispatches on for its left operand: a kind the evaluator handles and asLiteral does not is replaced by nil when the binding is given to Reduce, so splitting the bindings between Reduce and the evaluator changes the result")
+	kindsOf := func(fn *types.Func, operand string) (map[string]bool, token.Pos) {
+		fd := p.FuncDecls[fn]
+		out := map[string]bool{}
+		var pos token.Pos
+		if fd == nil || fd.Body == nil {
+			return nil, 0
+		}
+		ast.Inspect(fd.Body, func(n ast.Node) bool {
+			ts, ok := n.(*ast.TypeSwitchStmt)
+			if !ok {
+				return true
+			}
+			op := typeSwitchOperand(ts)
+			if id := identOf(op); id == nil || id.Name != operand {
+				return true
+			}
+			if pos == 0 {
+				pos = ts.Pos()
+			}
+			for _, cl := range ts.Body.List {
+				for _, e := range cl.(*ast.CaseClause).List {
+					if t := p.Info.TypeOf(e); t != nil {
+						out[p.TypeStr(t)] = true
+					}
+				}
+			}
+			return false // outermost switch on that operand only
+		})
+		return out, pos
+	}
+	al := p.Func("asLiteral")
+	ev := p.Method("ValuerEval", "evalBinaryExpr")
+	if al == nil || ev == nil {
+		c.Unk("C09.bindkinds", "asLiteral / evalBinaryExpr", 0, "anchor not found")
+		return
+	}
+	a, apos := kindsOf(al, "v")
+	e, _ := kindsOf(ev, "lhs")
+	if len(a) == 0 || len(e) == 0 {
+		c.Unk("C09.bindkinds", "asLiteral / evalBinaryExpr", apos, "type switches over the value not recognised")
+		return
+	}
+	var kinds []string
+	for k := range e {
+		kinds = append(kinds, k)
+	}
+	sort.Strings(kinds)
+	for _, k := range kinds {
+		if k == "untyped nil" {
+			continue
+		}
+		key := "asLiteral: a bound " + k
+		if a[k] {
+			c.OK("C09.bindkinds", key, apos, "substituted as a literal of its kind")
+		} else {
+			c.Bad("C09.bindkinds", key, apos, "the evaluator computes with "+k+" values, but Reduce substitutes a variable bound to one by nil: Reduce(x = 5) with x bound to uint64(5) folds to false")
+		}
+	}
 }
